@@ -186,9 +186,12 @@ MsgVerdict(r) ==
          ELSE IF r.msgs # DecAll(r.input).msgs THEN "delivered_messages_differ" ELSE ""
 
 \* C02 ---------------------------------------------------------------------------------------
-SDBuildVerdict(r) ==        \* r.msg (resolved), r.out, r.bytes, r.fits (every numeric field of the original inside its width)
+SDBuildVerdict(r) ==        \* r.msg (resolved), r.out, r.bytes, r.fits (every numeric field of the original inside its width),
+                            \* r.backout / r.back: outcome and result of the library's own parse + resolve_options on r.bytes
   IF r.out = "ok"
-  THEN IF ValidLayout(r.msg, r.bytes) THEN ""
+  THEN IF ValidLayout(r.msg, r.bytes)
+       THEN IF r.backout # "ok" THEN "library_cannot_decode_its_own_encoding:" \o r.backout
+            ELSE IF r.back # r.msg THEN "decoding_and_resolution_do_not_give_the_message_back" ELSE ""
        ELSE IF SurelyNot(r.msg) THEN "bytes_emitted_for_an_unrepresentable_message"
        ELSE "layout_does_not_resolve_to_the_message"
   ELSE IF r.fits /\ SurelyRepresentable(r.msg) THEN "error_for_a_representable_message:" \o r.out
